@@ -114,7 +114,9 @@ func c16One(env *Env, c *C16Case) {
 		for k := 0; k < c.Wounded && k < len(files); k++ {
 			f := dmg.Find(files[(k*7)%len(files)].Path)
 			if len(f.Data) > 0 {
-				f.Data[len(f.Data)/2] ^= 0x40
+				if _, ok := wvlib.WeakPreservingTweak(f.Data, len(f.Data)/2); !ok || (uint64(k)+c.Seed)%2 == 0 {
+					f.Data[len(f.Data)/2] ^= 0x40
+				}
 			}
 		}
 	}
